@@ -437,6 +437,82 @@ example : anonName keys5 { params := [("x", tI32)], throws := none } = "function
         = "function_cpp_map__i32__list___i32_i32" := by decide +kernel
 example : flatErrors (some ["e1", "e2"]) := by simp [flatErrors, flatL]
 
+/-! ### qualified references in inline signatures: names with dots
+
+A reference is spelled into the synthetic name as it is written — `model.user`, `.model.user`, `util.local.item` — so the name of an
+inline function type can contain dots, and two such names can agree up to the last dot. Every generator *appends* the extension
+to the (converted) name; nothing of the name is taken for an extension. -/
+
+/-- the Objective-C source file, like the header (`objc_same_namespace_injective`): distinct converted names of one namespace give
+    distinct files — whatever characters the names contain -/
+theorem objc_source_same_namespace_injective (c : GCfg) (d₁ d₂ : Decl) (hns : d₁.ns = d₂.ns)
+    (hc : convert c.type (baseName .objc d₁) = convert c.type (baseName .objc d₂) → d₁.name = d₂.name)
+    (hq : qname d₁ ≠ qname d₂) :
+    relSource .objc c d₁ ≠ relSource .objc c d₂ := by
+  intro h
+  simp only [relSource, Path.rel, objcName, hns, Path.mk.injEq, true_and, List.cons.injEq, and_true] at h
+  have h2 : convert c.type (baseName .objc d₁) = convert c.type (baseName .objc d₂) := by
+    simpa [String.append_assoc] using h
+  exact hq (by simp [qname, hns, hc h2])
+
+/-- **A file name keeps the whole name**: in every generator that writes headers, declarations of one namespace whose file-name
+    stems (the converted name: `objcName`, `objcppName`, `convert file name`) differ get different headers — the extension is appended
+    behind the stem, a dot inside the stem does not end it. -/
+theorem header_keeps_stem (c : GCfg) (d₁ d₂ : Decl) (hns : d₁.ns = d₂.ns) :
+    (relHeader .objc c d₁ = relHeader .objc c d₂ → objcName c d₁ = objcName c d₂)
+    ∧ (relHeader .objcpp c d₁ = relHeader .objcpp c d₂ → objcppName d₁ = objcppName d₂)
+    ∧ (relHeader .jni c d₁ = relHeader .jni c d₂ → convert c.file d₁.name = convert c.file d₂.name)
+    ∧ (relHeader .cpp c d₁ = relHeader .cpp c d₂ → convert c.file (baseName .cpp d₁) = convert c.file (baseName .cpp d₂))
+    ∧ (relHeader .cppcli c d₁ = relHeader .cppcli c d₂ → convert c.file (baseName .cppcli d₁) = convert c.file (baseName .cppcli d₂)) := by
+  refine ⟨?_, ?_, ?_, ?_, ?_⟩
+  · intro h
+    simp only [relHeader, Path.rel, Path.mk.injEq, true_and, List.cons.injEq, and_true] at h
+    simpa [String.append_assoc] using h
+  · intro h
+    simp only [relHeader, Path.rel, Path.mk.injEq, true_and, List.cons.injEq, and_true] at h
+    simpa [String.append_assoc] using h
+  · intro h
+    simp only [relHeader, Path.rel, Path.mk.injEq, true_and, List.cons.injEq, and_true] at h
+    simpa [String.append_assoc] using h
+  · intro h
+    simp only [relHeader, Path.rel, hns, Path.mk.injEq, true_and] at h
+    have := (snoc_inj _ _ _ _ h).2
+    simpa [String.append_assoc] using this
+  · intro h
+    simp only [relHeader, Path.rel, hns, Path.mk.injEq, true_and] at h
+    have := (snoc_inj _ _ _ _ h).2
+    simpa using this
+
+/-- the parts of a name that has no `_` inside its parts (type names without `_` and without generic arguments — dots are allowed)
+    can be read back from the name: such inline function types share a name only if they agree in every part -/
+theorem anonName_flat_injective (keys : List String) (a b : Sig)
+    (ha : ∀ t ∈ anonParts keys a, flatL t) (hb : ∀ t ∈ anonParts keys b, flatL t)
+    (h : anonName keys a = anonName keys b) : anonParts keys a = anonParts keys b := by
+  have hne : ∀ s : Sig, anonParts keys s ≠ [] := by
+    intro s; simp [anonParts, headParts]
+  have hl : anonNameL keys a = anonNameL keys b := by
+    have := congrArg String.toList h
+    simpa [anonName] using this
+  exact joinL_flat_injective _ _ (hne a) (hne b) ha hb hl
+
+def appNs : List String := ["app"]
+def fnUser : Decl := { name := anonName keys5 { params := [("v", .ref "model.user" false [])] }, ns := appNs, kind := .function, anonymous := true }
+def fnGroup : Decl := { name := anonName keys5 { params := [("v", .ref "model.group" false [])] }, ns := appNs, kind := .function, anonymous := true }
+def fnUserAbs : Decl := { name := anonName keys5 { params := [("v", .ref ".model.user" false [])] }, ns := appNs, kind := .function, anonymous := true }
+
+/-- `(v: model.user)`, `(v: model.group)` and `(v: .model.user)` in one namespace: three names that agree up to the last dot /
+    differ in a leading dot, and three different files in every generator (default configuration) -/
+theorem qualified_signatures_distinct_files :
+    fnUser.name = "function_cpp_cppcli_java_objc_yaml_model.user_void"
+    ∧ fnGroup.name = "function_cpp_cppcli_java_objc_yaml_model.group_void"
+    ∧ fnUserAbs.name = "function_cpp_cppcli_java_objc_yaml_.model.user_void"
+    ∧ relHeader .objc { dflt with headerExt := "h" } fnUser = .rel ["AppFunctionCppCppcliJavaObjcYamlModel.userVoid.h"]
+    ∧ (∀ g ∈ [G.cpp, .cppcli, .jni, .objc, .objcpp],
+        relHeader g dflt fnUser ≠ relHeader g dflt fnGroup ∧ relHeader g dflt fnUser ≠ relHeader g dflt fnUserAbs
+        ∧ relSource g dflt fnUser ≠ relSource g dflt fnGroup ∧ relSource g dflt fnUser ≠ relSource g dflt fnUserAbs)
+    ∧ relSource .java dflt fnUser ≠ relSource .java dflt fnGroup ∧ relSource .java dflt fnUser ≠ relSource .java dflt fnUserAbs := by
+  decide +kernel
+
 /-! ### the write log -/
 
 theorem collisionsOf_nil_nodup (g : G) (ws : List (Nat × Decl × FKind × Path)) (h : collisionsOf g ws = []) :
